@@ -21,6 +21,18 @@ theorem old_join_crossed_buckets :
       .ok [47, 114, 47, 98, 50, 47, 120] := by
   rfl
 
+/-- why the key check must refuse `RootDir`: `Path::join` REPLACES the left operand when the right one is absolute,
+    and `absolutize_virtually` only checks "under the root" — a key spelling the store's own root (`/r/b2/x`) joined
+    onto bucket directory `/r/b1` resolves, unrefused, into bucket `b2` -/
+theorem absolute_key_replaces_bucket_dir :
+    resolveAbsPath ⟨[47, 119], [47, 114]⟩ (join [47, 114, 47, 98, 49] [47, 114, 47, 98, 50, 47, 120]) =
+      .ok [47, 114, 47, 98, 50, 47, 120] := by
+  rfl
+
+/-- … which `get_object_path` prevents: the same key is refused -/
+theorem absolute_key_refused :
+    getObjectPath ⟨[47, 119], [47, 114]⟩ [98, 49] [47, 114, 47, 98, 50, 47, 120] = .error .invalidArgument := by rfl
+
 /-- … and key `..` under a relative bucket path made path-dedot run on an empty token list -/
 theorem old_key_dotdot_panics : dedotFrom false [47, 119] [98, 49, 47, 46, 46] = .panic := by rfl
 
